@@ -466,6 +466,11 @@ def finish(ctx, level='proof', rule='', trusted=None, checker_cmd=None, extra=No
         'known_findings_hit': [h['id'] for h in ctx.known_hits],
         'notes': ctx.notes,
     }
+    if ctx.discharged < 1 or ctx.obligations < 1:
+        # not a proof-level record any more: keep the schema's fallback keys only
+        cov['obligations_total'] = cov.pop('obligations')
+        cov['obligations_discharged'] = cov.pop('discharged')
+        cov['evaluations'] = max(cov['evaluations'], 1)
     if extra:
         cov.update(extra)
     ev = {
